@@ -8,7 +8,7 @@ from typing import Optional
 
 from vyper.ast import nodes as vy_ast
 from vyper.ast.pre_parser import PreParser
-from vyper.exceptions import CompilerPanic, ParserException, SyntaxException
+from vyper.exceptions import CompilerPanic, SyntaxException
 from vyper.utils import sha256sum
 from vyper.warnings import Deprecation, vyper_warn
 
@@ -72,7 +72,15 @@ def _parse_to_ast(
         Untyped, unoptimized Vyper AST nodes.
     """
     if "\x00" in vyper_source:
-        raise ParserException("No null bytes (\\x00) allowed in the source code.")
+        pos = vyper_source.index("\x00")
+        lineno = vyper_source.count("\n", 0, pos) + 1
+        col_offset = pos - (vyper_source.rfind("\n", 0, pos) + 1)
+        raise SyntaxException(
+            "No null bytes (\\x00) allowed in the source code.",
+            vyper_source.replace("\x00", "?"),
+            lineno,
+            col_offset,
+        )
     pre_parser = PreParser(is_interface)
     pre_parser.parse(vyper_source)
 
@@ -402,6 +410,17 @@ class AnnotatingVisitor(python_ast.NodeTransformer):
             # CMC 2024-03-03 consider unremoving this from the enclosing Expr
             node = node.value
             key = (node.lineno, node.col_offset)
+            if key not in self._pre_parser.keyword_translations:
+                # the positions recorded by the pre-parser and the positions of
+                # the re-parsed source disagree (e.g. a form feed, a lone
+                # carriage return or a stray line continuation before a `log`)
+                raise SyntaxException(
+                    "Invalid syntax (unsupported whitespace or line continuation "
+                    "before this statement?)",
+                    self._source_code,
+                    node.lineno,
+                    node.col_offset,
+                )
             node.ast_type = self._pre_parser.keyword_translations[key]
 
         return node
